@@ -28,11 +28,15 @@ impl<'a, T> Park<'a, T> {
     fn new(queue: &'a InnerQueue<T>) -> Park<'a, T> {
         Park {
             queue,
-            wait_kernel: AtomicBool::new(true),
+            // only set while `subscribe` is running: for a coroutine that is cancelled
+            // already `yield_with` returns without calling `subscribe` at all, a flag
+            // that starts as true would make the drop below spin for ever
+            wait_kernel: AtomicBool::new(false),
         }
     }
 
     fn delay_drop(&self) -> DropGuard<'_, '_, T> {
+        self.wait_kernel.store(true, Ordering::Relaxed);
         DropGuard(self)
     }
 }
@@ -58,7 +62,7 @@ impl<T> EventSource for Park<'_, T> {
     // register the coroutine to the park
     fn subscribe(&mut self, co: CoroutineImpl) {
         // the queue could dropped if unpark by other thread
-        let _g = self.delay_drop();
+        let g = self.delay_drop();
         // register the coroutine
         let wait_co = &self.queue.wait_co;
         wait_co.store(Blocker::new_coroutine(co));
@@ -67,6 +71,10 @@ impl<T> EventSource for Park<'_, T> {
         // would find no waiter registered yet
         if !self.queue.queue.is_empty() || self.queue.channels.load(Ordering::Relaxed) == 0 {
             if let Some(co) = wait_co.take() {
+                // release the kernel flag before the coroutine runs on top of this
+                // frame: when it drops the park it waits for the flag, and a cancelled
+                // coroutine does that without yielding back to us
+                drop(g);
                 run_coroutine(co.into_coroutine());
             }
             // return;
